@@ -56,19 +56,19 @@ theorem htmlPrettyCallsN_eq (N : Str → Str) (c : HtmlCtx) (sup : List Nat) (t 
       | panic => by_cases hi : ind > 0 <;> simp [hi]
 
 /-- `serialize_write_with_normalizer` threaded = its trace replayed against the writer. -/
-theorem serializeHtmlWriteNW_eq_runCalls (P : WriterPolicy) (N : Str → Str) (env : Env) (p : HtmlParams)
+theorem serializeHtmlWriteNW_eq_replayCalls (P : WriterPolicy) (N : Str → Str) (env : Env) (p : HtmlParams)
     (t : Tree) (start : Path) :
-    serializeHtmlWriteNW P N env p t start = runCalls P [] (serializeHtmlCallsN N env p t start) := by
+    serializeHtmlWriteNW P N env p t start = replayCalls P [] (serializeHtmlCallsN N env p t start) := by
   unfold serializeHtmlWriteNW serializeHtmlCallsN
   simp only []
-  rw [runCalls_append]
+  rw [replayCalls_append]
   cases h1 : writeCalls P [] [htmlDoctype] with
   | error b => rfl
   | ok h1' =>
     simp only []
     cases p.indentation with
-    | none => exact writeLoopW_eq_runCalls P _ _ _ _
-    | some sup => exact writeLoopW_eq_runCalls P _ _ _ _
+    | none => exact writeLoopW_eq_replayCalls P _ _ _ _
+    | some sup => exact writeLoopW_eq_replayCalls P _ _ _ _
 
 /-- The trace concatenated = what the never-failing model writes; same end. -/
 theorem serializeHtmlCallsN_eq (N : Str → Str) (env : Env) (p : HtmlParams) (t : Tree) (start : Path) :
@@ -86,7 +86,7 @@ theorem serializeHtmlCallsN_eq (N : Str → Str) (env : Env) (p : HtmlParams) (t
 /-- The instance lemma: unlimited budget = the never-failing model. -/
 theorem serializeHtmlWriteNW_unlimited (N : Str → Str) (env : Env) (p : HtmlParams) (t : Tree) (start : Path) :
     serializeHtmlWriteNW WriterPolicy.unlimited N env p t start = serializeHtmlWriteN N env p t start := by
-  rw [serializeHtmlWriteNW_eq_runCalls, runCalls_unlimited, List.nil_append, serializeHtmlCallsN_eq]
+  rw [serializeHtmlWriteNW_eq_replayCalls, replayCalls_unlimited, List.nil_append, serializeHtmlCallsN_eq]
 
 /-! ### Without one (`N = id`) -/
 
@@ -119,11 +119,11 @@ theorem serializeHtmlCallsN_id (env : Env) (p : HtmlParams) (t : Tree) (start : 
   simp only [serializeHtmlCallsN, serializeHtmlCalls, htmlStepCallsN_id, htmlPrettyStepCallsN_id]
   cases p.indentation <;> rfl
 
-theorem serializeHtmlWriteW_eq_runCalls (P : WriterPolicy) (env : Env) (p : HtmlParams) (t : Tree)
+theorem serializeHtmlWriteW_eq_replayCalls (P : WriterPolicy) (env : Env) (p : HtmlParams) (t : Tree)
     (start : Path) :
-    serializeHtmlWriteW P env p t start = runCalls P [] (serializeHtmlCalls env p t start) := by
+    serializeHtmlWriteW P env p t start = replayCalls P [] (serializeHtmlCalls env p t start) := by
   rw [← serializeHtmlWriteNW_id, ← serializeHtmlCallsN_id]
-  exact serializeHtmlWriteNW_eq_runCalls P id env p t start
+  exact serializeHtmlWriteNW_eq_replayCalls P id env p t start
 
 theorem serializeHtmlCalls_eq (env : Env) (p : HtmlParams) (t : Tree) (start : Path) :
     ((serializeHtmlCalls env p t start).1.flatten, (serializeHtmlCalls env p t start).2)
@@ -132,6 +132,6 @@ theorem serializeHtmlCalls_eq (env : Env) (p : HtmlParams) (t : Tree) (start : P
 
 theorem serializeHtmlWriteW_unlimited (env : Env) (p : HtmlParams) (t : Tree) (start : Path) :
     serializeHtmlWriteW WriterPolicy.unlimited env p t start = serializeHtmlWrite env p t start := by
-  rw [serializeHtmlWriteW_eq_runCalls, runCalls_unlimited, List.nil_append, serializeHtmlCalls_eq]
+  rw [serializeHtmlWriteW_eq_replayCalls, replayCalls_unlimited, List.nil_append, serializeHtmlCalls_eq]
 
 end XotModel
